@@ -246,6 +246,11 @@ impl<'a> Run<'a> {
         self.ctx.layer(&sp.name, ln, sp.total, desc, |i, acc| {
             let mut input = Vec::new();
             sp.get(i, &mut input);
+            if this.script.is_some() && matches!(input.first(), Some(0xEF) | Some(0xFE) | Some(0xFF)) {
+                // a chunked source recognises a byte-order mark only inside its first piece (stated exception, C02)
+                acc.count("inputs_skipped_bom_exception", 1);
+                return;
+            }
             let truth = match this.truth(&input) {
                 Ok(t) => t,
                 Err(e) => {
@@ -331,6 +336,7 @@ pub fn run(ctx: &Ctx) {
     run.space(&context("Init.bom", &[b"", b"\xEF", b"\xEF\xBB", b"\xEF\xBB\xBF", b"\xEF\xBB\xBF\xEF\xBB\xBF"], b"<?xml >a/", t.pick(5, 6), &[b""], false), &two, false);
 
     run.space(&ws_class(), &[NEUTRAL, DEFAULT, 127], false);
+    run.space(&mid_bom(t.pick(3, 4)), &[NEUTRAL, DEFAULT, 127, NEUTRAL | TRIM_START | TRIM_END], false);
 
     // the same lexical oracle for the streaming (buffered) reader: its scanners carry state across
     // refills, so a lexing bug may exist only there (schedules in depth are C02's business)
@@ -340,6 +346,7 @@ pub fn run(ctx: &Ctx) {
         run.script = Some(Script::pieces(piece));
         run.space(&raw(&format!("A.raw.buffered(piece={})", piece), SIGMA_M, t.pick(5, 6)), &four, false);
         run.space(&atoms(&format!("C.atoms.buffered(piece={})", piece), ATOMS_C, t.pick(3, 4)), &four, false);
+        run.space(&mid_bom(t.pick(2, 3)), &four, false);
     }
     run.script = None;
 
